@@ -1,5 +1,5 @@
-\* exhaustive: every behaviour of at most MaxOps operations over 2 allocations (2 addresses, so that a freed address is
-\* reused and two buffers can be alive together), 4 arrays, 2 items; one route per distinct (state, last call) is emitted
+\* quick, exhaustive: every behaviour of at most MaxOps operations over 2 allocations (2 addresses: a freed address is
+\* re-used, two buffers can be alive together), 3 arrays, 2 items; one route per distinct (state, last call) is emitted
 SPECIFICATION Spec
 CONSTANTS
   MaxBufs = 2
@@ -8,7 +8,7 @@ CONSTANTS
   MaxViews = 3
   MaxOps = 5
   MaxVer = 1
-  UseKinds = {"even", "head", "headT", "odd", "mid", "rev"}
+  UseKinds = {"even", "head", "headT", "odd", "mid"}
   FirstFit = TRUE
   KeyStrides = TRUE
   Finalizer = TRUE
